@@ -6,7 +6,7 @@ TARGET = dict(
           "other pipes: units of 0..MTU+1 octets), cut into buffers in 1-3 different ways (one buffer, one-byte buffers, small incl. empty, around the unit size, large; 1-3 segments each), "
           "configuration MTU / alignment / packet size 188,192,204,16 / sync count 2-5 (and 1 tried: refused, or judged by the reference when accepted), the output size set to another value and back after the flow definition, release at the end or in mid-stream; pipe chosen by the tape among aggregate, chunk_stream, ts_sync, ts_check, ts_align (sync and check mode); "
           "oracle: reference chunker / reference TS lock rule / aggregate conservation (accepted units in order, unsplit, <= MTU, all emitted at release) / ts_check units are whole sync-led packets taken in order from the input; "
-          "metamorphic equality of the output units under all cuttings for the stream parsers; delivery budget (termination); fixture audit; "
+          "metamorphic equality of the output units under all cuttings for the stream parsers; every delivered unit is a whole block (a marker appended to a duplicate reads back right behind its last octet); delivery budget (termination); fixture audit; "
           "non-trivial (parsers) = cuttings differ and a buffer boundary falls inside an output unit, (others) = >= 2 output units; distinct by hash of configuration, stream elements and cuttings"),
     assumptions=["reference implementations of the chunking and TS locking rules in the harness (written from the pipes' documentation and code comments)",
                  "upipe_ts_*.c compiled against the stand-in <bitstream/mpeg/ts.h> (only TS_SIZE / TS_SYNC are used)"],
